@@ -70,7 +70,12 @@ func (p *packetizer) Packetize(payload []byte, samples uint32) []*Packet {
 		return nil
 	}
 
-	payloads := p.Payloader.Payload(p.MTU-12, payload)
+	headerSize := uint16(12)
+	if p.extensionNumbers.AbsSendTime != 0 {
+		// one-byte extension header (4) + id/len (1) + abs-send-time (3)
+		headerSize += 8
+	}
+	payloads := p.Payloader.Payload(p.MTU-headerSize, payload)
 	packets := make([]*Packet, len(payloads))
 
 	for i, pp := range payloads {
